@@ -84,7 +84,7 @@ pub fn explore<Sy: System>(sys: &Sy, lim: &Limits, rep: &Report, name: &str) -> 
     while !frontier.is_empty() {
         if depth >= lim.max_depth {
             closed = false;
-            rep.cap(&format!("{}: depth bound {} reached with {} frontier states unexpanded", name, lim.max_depth, frontier.len()));
+            rep.bound(&format!("{}: depth bound {} reached with {} frontier states unexpanded (all histories up to that depth covered)", name, lim.max_depth, frontier.len()));
             break;
         }
         if rep.over_time() {
